@@ -233,8 +233,13 @@ ApplyTo(r, payload, emit, outcome, wire, o, nev, hasfol, fol, extra(_, _, _)) ==
       R2 == ObsRep(o, R.dlv \cup InsIds(us), ddel2 \cup CL)
       \* implementation-level prediction (drift only): the transcription of TransactionMut::cleanup_fmt in Rich.tla, run on
       \* the recorded lists with the tombstones / insertions / deletions the transaction had made before the clean-up
-      \* (the units it integrated are Have(R2) \ Have(R): with gaps the update event re-emits blocks integrated earlier)
-      PredCL == UNION {CleanupFmt(E2, R2.lst[c], R2.dead \ CL, Have(R2) \ Have(R), Ids(emit.del) \ CL) : c \in MarkedConts(E2, R2)}
+      \* (the units it integrated are Have(R2) \ Have(R): with gaps the update event re-emits blocks integrated earlier;
+      \* a mark that arrives as collected content - the sender had garbage-collected its tombstone - is a plain deleted
+      \* unit for cleanup_fmt, not a deleted mark)
+      asDel == {us[i].id : i \in {j \in 1..Len(us) : us[j].kind = "deleted"}}
+      E3 == IF asDel \cap DOMAIN E2 = {} THEN E2
+            ELSE [x \in DOMAIN E2 |-> IF x \in asDel THEN [E2[x] EXCEPT !.kind = "deleted"] ELSE E2[x]]
+      PredCL == UNION {CleanupFmt(E3, R2.lst[c], R2.dead \ CL, Have(R2) \ Have(R), Ids(emit.del) \ CL) : c \in MarkedConts(E2, R2)}
       ok == WellFormed(E2, o)
       changed == Have(R2) # Have(R) \/ (R2.dead \cup R2.gone) # (R.dead \cup R.gone)
       chk == IF ~ok THEN << <<"C04_Placed", FALSE>> >>
